@@ -478,6 +478,14 @@ impl Session {
     /// Initializing a session is done based on the data that had arrived in the Handshake Request message,
     /// written by a remote peer on the `C1` characteristic.
     fn setup(&mut self, address: BtAddr, version: u8, mtu: u16, window_size: u8) {
+        // A handshake starts a new BTP session: nothing of a previous one - the window
+        // counters, the sequence numbers, data still buffered - carries over into it.
+        // (Or else a peer repeating the handshake re-gains the whole window every time,
+        // while the counters of the segments not yet acknowledged and of the messages
+        // not yet fetched keep growing - beyond their range.)
+        self.recv_window.reset();
+        self.send_window.reset();
+
         self.address = address;
         self.version = version;
         self.mtu = mtu;
